@@ -21,7 +21,7 @@ import (
 func init() {
 	Registry["C16"] = &Check{
 		Scenarios: c16Scenarios,
-		Rule: "complete grid: hop-by-hop and end-to-end ids from {0,1,2^31,2^32-1}^2 x all 256 command flag bytes x every (application, command) of the embedded dictionaries x result code {0 (none asked), 2001, 5012, 2^32-1} through Message.Answer; the state machine's success CEA, each failure CEA (5010, 5017, 5012) and DWA for the same id grid over an in-memory transport; the same requests arriving on SCTP streams {0,1,5,15} of the in-memory multistream backend (and on a stream-less transport), answered by a handler through Answer().WriteTo and by the state machine: the backend must record the answer on the request's stream.",
+		Rule: "complete grid: hop-by-hop and end-to-end ids from {0,1,2^31,2^32-1}^2 x all 256 command flag bytes x every (application, command) of the embedded dictionaries x result code {0 (none asked), 2001, 5012, 2^32-1} through Message.Answer; the state machine's success CEA, each failure CEA (5010, 5017, 5012) and DWA for the same id grid over an in-memory transport; the same requests arriving on SCTP streams {0,1,5,15} of the in-memory multistream backend (and on a stream-less transport), answered by a handler through Answer().WriteTo and by the state machine: the backend must record the answer on the request's stream, also when the answer to a request is written later, while a request from another stream is being handled (all 16 stream pairs).",
 		Assume: []string{"single default schedule per exchange", "in-memory SCTP backend (hook diam/sctp_verif.go)"},
 		QuickBudget: 120, ThoroughBudget: 900,
 	}
@@ -40,6 +40,7 @@ func c16Scenarios(tier string) []*Scenario {
 		out = append(out, &Scenario{Name: "state-machine/" + kind, Seq: func(r *SeqResult) { c16SM(r, kind) }})
 	}
 	out = append(out, &Scenario{Name: "streams/handler-answer", Seq: c16Streams})
+	out = append(out, &Scenario{Name: "streams/deferred-answer", Seq: c16Deferred})
 	return out
 }
 
@@ -243,6 +244,65 @@ func c16SM(r *SeqResult, kind string) {
 						r.Case = map[string]interface{}{"kind": kind, "hbh": hbh, "e2e": ee, "flags": flags, "stream": stream}
 					}
 				}
+			}
+		}
+	}
+}
+
+// c16Deferred: the answer to the first request is written while the connection is handling a
+// later request that arrived on another stream; each answer must still go to its own
+// request's stream.
+func c16Deferred(r *SeqResult) {
+	streams := []uint16{0, 1, 5, 15}
+	for _, s1 := range streams {
+		for _, s2 := range streams {
+			s1, s2 := s1, s2
+			var be *vnet.SCTP
+			s := vs.Run(nil, false, 5*time.Second, false, func() {
+				be = vnet.NewSCTP("S")
+				mux := diam.NewServeMux()
+				var first *diam.Message
+				mux.HandleFunc("ALL", func(c diam.Conn, m *diam.Message) {
+					if first == nil {
+						first = m
+						return
+					}
+					first.Answer(2001).WriteTo(c)
+					m.Answer(2001).WriteTo(c)
+				})
+				msc := diam.NewSCTPConnBackend(be)
+				if _, err := diam.NewConn(msc, "peer", mux, dict.Default); err != nil {
+					return
+				}
+				be.Deliver(s1, refcodec.EncodeMessage(refcodec.Header{Version: 1, Flags: 0x80, Code: 258, HbH: 1, E2E: 1}, []refcodec.Node{ident(264, "c")}))
+				be.Deliver(s2, refcodec.EncodeMessage(refcodec.Header{Version: 1, Flags: 0x80, Code: 258, HbH: 2, E2E: 2}, []refcodec.Node{ident(264, "c")}))
+				be.PeerEOF()
+			})
+			s.Teardown()
+			r.Cases++
+			r.Distinct++
+			if r.Sample == "" {
+				r.Sample = fmt.Sprintf("requests on streams %d then %d, both answered inside the second handler -> %d writes", s1, s2, len(be.Writes))
+			}
+			if r.Violation != "" {
+				continue
+			}
+			v := ""
+			if len(be.Writes) != 2 {
+				v = fmt.Sprintf("%d answers recorded, expected 2", len(be.Writes))
+			} else {
+				for i, want := range []uint16{s1, s2} {
+					h, _ := refcodec.DecodeHeader(be.Writes[i].Data)
+					if int(h.HbH) != i+1 {
+						v = fmt.Sprintf("write %d is not the answer to request %d", i, i+1)
+					} else if be.Writes[i].Stream != want {
+						v = fmt.Sprintf("the answer to request %d (arrived on stream %d) was written to stream %d", i+1, want, be.Writes[i].Stream)
+					}
+				}
+			}
+			if v != "" {
+				r.Violation = fmt.Sprintf("deferred answer: request 1 on stream %d is answered while request 2 (stream %d) is being handled: %s", s1, s2, v)
+				r.Case = map[string]interface{}{"s1": s1, "s2": s2}
 			}
 		}
 	}
